@@ -372,6 +372,28 @@ pub fn run(ctx: &Ctx) -> Report {
     });
     st = st.merge(st3);
 
+    // (4) the named option values mean what they say (callers pick configurations through them)
+    {
+        use scratchstack_aws_signature::SignatureOptions;
+        let d = SignatureOptions::default();
+        let s3 = SignatureOptions::S3;
+        let f = SignatureOptions::url_encode_form();
+        let ok = (!d.s3 && !d.url_encode_form) && (s3.s3 && !s3.url_encode_form) && (!f.s3 && f.url_encode_form);
+        st.evaluations += 3;
+        st.validated += 3;
+        st.state(&("options", d.s3, d.url_encode_form, s3.s3, s3.url_encode_form, f.s3, f.url_encode_form));
+        if !ok {
+            st.violation(Violation {
+                index: base3 + n3 + 1,
+                what: "named-option-values".into(),
+                case: json!({"default": [d.s3, d.url_encode_form], "S3": [s3.s3, s3.url_encode_form], "url_encode_form()": [f.s3, f.url_encode_form]}),
+                expected: "default = (false,false), S3 = (true,false), url_encode_form() = (false,true)".into(),
+                observed: format!("{:?} {:?} {:?}", d, s3, f),
+                known: None,
+            });
+        }
+    }
+
     Report {
         stats: st,
         rule: format!(
